@@ -347,6 +347,12 @@ def compare_with_model(ctx: Ctx, d: DFA, enc: str, sy, p: dict, obs: dict) -> No
 
 @case_guard
 def check_case(ctx: Ctx, d: DFA, enc: str, sy, shape: dict, p: dict, origin: str):
+    if L.TIMEOUTS >= 6:
+        # every call that does not return costs a full time-out and IS a recorded failure: stop producing more
+        if not any("cases skipped" in n for n in ctx.notes):
+            ctx.note(f"{L.TIMEOUTS} real calls did not return within {TIMEOUT_S}s; the remaining cases skipped")
+        ctx.stat("skipped:after_repeated_timeouts")
+        return
     kind = domain_kind(d, p, shape)
     if kind in ("foreign_symbol", "empty_alphabet"):
         return finding_case(ctx, d, enc, sy, shape, p, kind)
